@@ -135,28 +135,31 @@ struct ActivityContext<'a> {
 
 fn match_place(single: &Arc<Single>, is_job_activity: bool, activity_ctx: &ActivityContext) -> Option<Place> {
     let job_id = get_job_id(single);
-    let job_tag =
-        get_job_tag(single, (activity_ctx.location, (activity_ctx.time.clone(), activity_ctx.route_start_time)));
-
     let is_same_ids = *activity_ctx.job_id == job_id;
-    let is_same_tags = match (job_tag, activity_ctx.tag) {
-        (Some(job_tag), Some(activity_tag)) => job_tag == activity_tag,
-        (None, None) => true,
-        _ => false,
+
+    // NOTE the tag written into the solution is the tag of the place used by the activity, so the candidate
+    // place itself has to carry it: another place of the same job at the same location and time does not count
+    let get_place_tag = |place_idx: usize| {
+        single
+            .dimens
+            .get_place_tags()
+            .and_then(|tags| tags.iter().find(|(idx, _)| *idx == place_idx))
+            .map(|(_, tag)| tag)
     };
 
-    match (is_same_tags, is_same_ids, is_job_activity) {
-        (true, false, true) => None,
-        (true, true, _) | (true, false, false) => single
+    match (is_same_ids, is_job_activity) {
+        (false, true) => None,
+        _ => single
             .places
             .iter()
             .enumerate()
-            .find(|(_, place)| {
+            .find(|(idx, place)| {
+                let is_same_tag = get_place_tag(*idx) == activity_ctx.tag;
                 let is_same_location = place.location.is_none_or(|l| l == activity_ctx.location);
                 let is_proper_time =
                     place.times.iter().any(|time| time.intersects(activity_ctx.route_start_time, &activity_ctx.time));
 
-                is_same_location && is_proper_time
+                is_same_tag && is_same_location && is_proper_time
             })
             .map(|(idx, place)| {
                 // NOTE search for the latest occurrence assuming that times are sorted
@@ -175,7 +178,6 @@ fn match_place(single: &Arc<Single>, is_job_activity: bool, activity_ctx: &Activ
 
                 Place { idx, location: activity_ctx.location, duration: place.duration, time }
             }),
-        _ => None,
     }
 }
 
@@ -198,28 +200,6 @@ pub(crate) fn get_extra_time(stop: &PointStop, activity: &FormatActivity, place:
             }
         })
         .next()
-}
-
-pub(super) fn get_job_tag(single: &Single, place: (Location, (TimeWindow, Timestamp))) -> Option<&String> {
-    let (location, (time_window, start_time)) = place;
-    single.dimens.get_place_tags().map(|tags| (tags, &single.places)).and_then(|(tags, places)| {
-        tags.iter()
-            .find(|(place_idx, _)| {
-                let place = places.get(*place_idx).expect("invalid tag place index");
-
-                let is_correct_location = place.location.is_none_or(|l| location == l);
-                let is_correct_time = place
-                    .times
-                    .iter()
-                    .map(|time| time.to_time_window(start_time))
-                    .any(|time| time.intersects(&time_window));
-
-                // TODO check duration too?
-
-                is_correct_location && is_correct_time
-            })
-            .map(|(_, tag)| tag)
-    })
 }
 
 fn get_job_id(single: &Arc<Single>) -> String {
